@@ -22,7 +22,9 @@ import (
 	"math/rand"
 	"net"
 	"os"
+	"path/filepath"
 	"runtime"
+	"sort"
 	"strconv"
 	"strings"
 	"time"
@@ -626,7 +628,7 @@ func (x *c14Exec) checkAlloc(op, cmd string, pver uint32, declared uint64, r c14
 		sig := c14Sig("alloc", cmd)
 		what := fmt.Sprintf("decoding one %s %s allocated %d bytes although the declared payload limit of the command is %d bytes (bound used: %d x limit + %d)", cmd, stage, r.alloc, declared, c14AllocFactor, c14AllocSlack)
 		if cmd == "version" {
-			sig = "c14-alloc-version-useragent"
+			sig = "c14-alloc-version-useragent" // the signature of C14-F1 (repaired): a regression shows up under its old name
 		}
 		x.failure(op, what, fmt.Sprintf("<= %d", bound), fmt.Sprint(r.alloc), sig)
 	}
@@ -1678,6 +1680,38 @@ func c14MeterAgrees(model, impl string) bool {
 	return got >= mx && got <= c14AllocFactor*(sum+inlen)+c14AllocSlack
 }
 
+// c14Corpus: witnesses of past defects, run before anything generated (a `fixed` entry of
+// KNOWN_FINDINGS.json suppresses nothing: its witness is an ordinary case). Built-in + /verif/corpus/C14/*.ops.
+func c14Corpus() []c14Case {
+	const f1 = "e3e1f3e876657273696f6e000000000055000000d02a8459" +
+		"0000000000000000000000000000000000000000000000000000000000000000000000000000000000000000000000000000000000000000000000000000000000000000000000000000000000000000" +
+		"feffffff0f"
+	ops := []string{"wframe 70013 3908297187 " + f1, "wfalloc 70013 3908297187 " + f1}
+	files, _ := filepath.Glob("/verif/corpus/C14/*.ops")
+	sort.Strings(files)
+	for _, f := range files {
+		b, err := os.ReadFile(f)
+		if err != nil {
+			continue
+		}
+		for _, ln := range strings.Split(string(b), "\n") {
+			ln = strings.TrimSpace(ln)
+			if ln != "" && !strings.HasPrefix(ln, "#") {
+				ops = append(ops, ln)
+			}
+		}
+	}
+	seen := map[string]bool{}
+	var res []c14Case
+	for _, op := range ops {
+		if !seen[op] {
+			seen[op] = true
+			res = append(res, c14Case{op, "corpus", true})
+		}
+	}
+	return res
+}
+
 func runC14(c *Ctx) error {
 	wire.SetLimits(config.ExcessiveBlockSize) // as cmd/main.go does
 	// internal/wire reports some ignored errors with fmt.Println: keep our stdout clean
@@ -1686,7 +1720,7 @@ func runC14(c *Ctx) error {
 		os.Stdout = devnull
 		defer func() { os.Stdout = realStdout; _ = devnull.Close() }()
 	}
-	c.R.Rule = "ops: wenc/wwrite (round trip of random messages of the 16 kinds + protoconf, mostly well-formed, 1 in 5 with one WF clause spoiled, x 12 negotiated protocol versions (every threshold of protocol.go with neighbours) + 5 outside, both MessageEncoding values, 4 networks), " +
+	c.R.Rule = "corpus first (witness of the repaired defect C14-F1: 109-byte version frame with an inflated user-agent var-int). ops: wenc/wwrite (round trip of random messages of the 16 kinds + protoconf, mostly well-formed, 1 in 5 with one WF clause spoiled, x 12 negotiated protocol versions (every threshold of protocol.go with neighbours) + 5 outside, both MessageEncoding values, 4 networks), " +
 		"wframe/wdec (mutation stream over valid frames of EVERY command of makeEmptyMessage: bit flips in header/payload, truncation, length-field and count-var-int inflation, splicing, random payloads and streams, command-field damage; checksum repaired in most cases so that the decoder is reached), " +
 		"var-int lattice, directed allocation candidates, wsha. A round-trip case is non-trivial when the message has at least one field; a mutation case when the frame has a full header and differs from its valid source; distinct by op line. " +
 		"Oracle (Go, independent of the model): WF(m) => decode(encode(m)) renders equal to m and re-encodes to the same bytes, ReadMessage(WriteMessage(m)) = m with the frame layout recomputed by crypto/sha256; " +
@@ -1702,7 +1736,7 @@ func runC14(c *Ctx) error {
 		}
 	} else {
 		g := &c14Gen{rng: lib.Rng(c.Seed, "c14"), c: c}
-		cases = g.generate()
+		cases = append(c14Corpus(), g.generate()...)
 	}
 
 	x := &c14Exec{c: c, fail: c.R.Fail, measure: true}
